@@ -134,8 +134,9 @@ def np_unit_intervals(h):
     lower, upper, conf = res.lower, res.upper, res.conformalization
     rows = z3.And(*t.nonrep.axis.facts())
     h.ensures("rows_are_nonreporting_units", frames.same_rows(lower.axes[0], t.nonrep.axis) or frames.provably_same_rows(lower.axes[0], t.nonrep.axis))
-    h.ensures("lower_floor", z3.Implies(rows, lower.t >= t.res))
-    h.ensures("upper_floor", z3.Implies(rows, upper.t >= t.res))
+    rp_floor = lambda ev: {"target": "verif_replays:unit_interval_floor_replay", "args": ["nonparametric"], "check": "result['exc'] is None and result['ok']"}  # noqa: E731
+    h.ensures("lower_floor", z3.Implies(rows, lower.t >= t.res), replay=rp_floor)
+    h.ensures("upper_floor", z3.Implies(rows, upper.t >= t.res), replay=rp_floor)
     h.ensures("whole_numbers", z3.Implies(rows, z3.And(_isint(lower.t), _isint(upper.t))))
     h.ensures("finite", lower.nan is None and lower.inf is None and upper.nan is None and upper.inf is None)
     # C04.5: one correction, applied symmetrically, then un-normalised, floored, rounded
